@@ -11,6 +11,7 @@ package c05
 import (
 	"bytes"
 	"fmt"
+	"io"
 	"math"
 	"path/filepath"
 	"strconv"
@@ -487,6 +488,31 @@ func (k *checker) runFiles(base int) bool {
 		}
 	}
 	rec(nil)
+	if c.Mine(base + 100000) {
+		k.afterFailedWrite()
+	}
 	c.Bound("a.files", "every sequence of 1..3 obj.Save calls over a menu of three meshes (6, 2, 1 triangles) to one path, then obj.Load")
 	return !stop
+}
+
+// a write after a failed write (core.AfterFailedWrite): obj.WriteMeshes of one small mesh right after a
+// list of three meshes with materials hit a sink that errors after 0 … 20000 bytes
+func (k *checker) afterFailedWrite() {
+	big := []obj.ObjMesh{fileMenu[0].build(), fileMenu[1].build(), fileMenu[0].build()}
+	big[0].Name, big[1].Name, big[2].Name = "a", "b", "c"
+	small := []obj.ObjMesh{fileMenu[2].build()}
+	small[0].Name = "z"
+	k.c.Nontrivial("after-failed-write")
+	why := core.AfterFailedWrite(core.FailLimits, func(it int, w io.Writer) error {
+		if it == 0 {
+			return obj.WriteMeshes(big, "", w)
+		}
+		return obj.WriteMeshes(small, "", w)
+	})
+	if why != "" {
+		k.c.Eval("files/after-failed-write", "mismatch")
+		k.fail("obj.WriteMeshes", "writing a list of meshes yields the text of that list (also right after an earlier write failed)", "after-failed-write", why, Case{Kind: "after-failed-write"})
+		return
+	}
+	k.c.Eval("files/after-failed-write", "ok")
 }
